@@ -2,11 +2,14 @@
 C15 driver: model side.
 case: {"doc": [node..], "filters": [html filter..]}   (node format: see harness/src/bin/c15.rs)
 out:  {"m": hex of the model chain run on serialize(doc) as one chunk,
-       "s": hex of serialize (editAll doc filters)  — the reference edit of Model/FilterDom.lean}
+       "s": hex of serialize (editAll doc filters)  — the reference edit of Model/FilterDom.lean,
+       "tags": ["thm-applies"] when the executable check `stepsOKB` of the hypotheses of theorem
+               Rio.C15.filters_compose_checked answers true for this case, else ["thm-not-applicable", whyNot htmlTokenize evalStandIn (vtOf htmlTokenize) ndoc fs]}
 -/
 import Drivers.Common
 import RioModel.Model.FilterJson
 import RioModel.Model.FilterDom
+import RioModel.Proofs.FilterDom
 open Lean Rio.Filter
 
 partial def node? (j : Json) : Except String Node := do
@@ -25,6 +28,24 @@ partial def node? (j : Json) : Except String Node := do
     return .el (utf8Bytes (← J.str? j "n")) (utf8Bytes (← J.str? j "d")) (utf8Bytes (← J.str? j "a")) kind cs
   else throw s!"node type {t}"
 
+/-- adjacent verbatim pieces (two text nodes, text next to a comment, …) merged into one: the serialisation is the
+same and the tokenizer sees the merged piece as a whole, which is how it sees it inside the document -/
+partial def normDoc : List Node → List Node
+  | [] => []
+  | .verb a ma :: .verb b mb :: rest => normDoc (.verb (a ++ b) (ma ++ mb) :: rest)
+  | .verb a ma :: rest => .verb a ma :: normDoc rest
+  | .el nm d at_ k cs :: rest => .el nm d at_ k (normDoc cs) :: normDoc rest
+
+/-- why `stepsOKB` fails: the first step that does not pass, and which conjunct -/
+def whyNot (tk : Tokenize) (ev : Bytes → Bytes → Bool) (vt : Bytes → List Tok) : List Node → List BodyFilter → String
+  | _, [] => "ok"
+  | d, f :: fs =>
+    if !inDomainB tk vt d f then "na:domain"
+    else if !tokAgreeB tk vt d then
+      (if decide (tk (serializeList d) = (tokensOfList vt d, [])) then "na:held-or-utf8" else "na:tokens-differ")
+    else if !(fs.isEmpty || !(serializeList (editD (decOf ev) d f)).isEmpty) then "na:empty-intermediate"
+    else whyNot tk ev vt (editD (decOf ev) d f) fs
+
 def handle (j : Json) : Except String Json := do
   let doc ← (← J.arr? j "doc").toList.mapM node?
   let fs ← J.filters? j
@@ -32,6 +53,14 @@ def handle (j : Json) : Except String Json := do
   let chain : Chain Unit Unit := Chain.new noCodec J.lower fs []
   let out := chain.run htmlTokenize evalStandIn noCodec [input]
   let spec := serializeList (editAll doc fs)
-  return Json.mkObj [("m", toJson (J.hex out)), ("s", toJson (J.hex spec))]
+  -- does theorem Rio.C15.filters_compose_checked apply to this case?  (executable, proved-sound check of its
+  -- hypotheses: domain of every filter on the document it sees, tokenizer(serialize d) = tokensOf d, ...)
+  let ndoc := normDoc doc
+  let applies := stepsOKB htmlTokenize evalStandIn (vtOf htmlTokenize) ndoc fs
+  -- ... and then the theorem's right-hand side must be what the model computed
+  let thmRhs := serializeList (editAllD (decOf evalStandIn) ndoc fs)
+  let tags : List String :=
+    if applies then (if thmRhs == out && serializeList ndoc == input then ["thm-applies"] else ["thm-applies", "THM-RHS-DIFFERS"]) else ["thm-not-applicable", whyNot htmlTokenize evalStandIn (vtOf htmlTokenize) ndoc fs]
+  return Json.mkObj [("m", toJson (J.hex out)), ("s", toJson (J.hex spec)), ("tags", toJson tags)]
 
 def main : IO Unit := Drv.run handle
